@@ -40,6 +40,7 @@
 #include <sys/syscall.h>
 #include <fcntl.h>
 #include <execinfo.h>
+#include <dirent.h>
 #include "rculfhash-internal.h"
 #include "lfht_life_ga.h"
 #include "lfht_life_core.h"
@@ -666,6 +667,66 @@ static void dump_thread_stacks(void)
 		}
 }
 
+static int count_vmas(void)
+{
+	FILE *f = fopen("/proc/self/maps", "r");
+	int n = 0, c;
+	if (!f)
+		return -1;
+	while ((c = fgetc(f)) != EOF)
+		if (c == '\n')
+			n++;
+	fclose(f);
+	return n;
+}
+
+/*
+ * A logical stuck state has every thread that could end it asleep.  Threads of the unbounded roles
+ * (resident readers, walkers) legitimately keep running; any OTHER task of the process that is
+ * runnable (R) or in an uninterruptible kernel operation (D) in two samples means the process is
+ * slow (e.g. mmap_lock contention), not stuck: the verdict is then "inconclusive".
+ */
+static int busy_tasks(char *who, size_t wlen)
+{
+	int busy = 0;
+	DIR *d = opendir("/proc/self/task");
+	struct dirent *de;
+	int self = (int) syscall(SYS_gettid);
+	if (!d)
+		return 0;
+	while ((de = readdir(d))) {
+		if (de->d_name[0] == '.')
+			continue;
+		int tid = atoi(de->d_name);
+		if (tid == self)
+			continue;
+		int skip = 0;
+		for (int i = 0; i < g_nthr; i++)
+			if (VP_LOAD(T[i].ktid) == tid && VP_LOAD(T[i].started) &&
+			    (T[i].role == R_RESIDENT || T[i].role == R_WALK))
+				skip = 1;
+		if (skip)
+			continue;
+		int hits = 0;
+		for (int k = 0; k < 3; k++) {
+			char stat[256];
+			if (read_proc(tid, "stat", stat, sizeof(stat)) > 0) {
+				char *rp = strrchr(stat, ')');
+				if (rp && rp[1] && (rp[2] == 'R' || rp[2] == 'D'))
+					hits++;
+			}
+			usleep(50000);
+		}
+		if (hits >= 2) {
+			if (!busy)
+				snprintf(who, wlen, "%d", tid);
+			busy++;
+		}
+	}
+	closedir(d);
+	return busy;
+}
+
 static int confirm_stuck(char *buf, size_t len)
 {
 	dump_thread_stacks();
@@ -702,11 +763,18 @@ static int confirm_stuck(char *buf, size_t len)
 				wstate = rp[2];
 		}
 	}
-	vp_note("stuck: call=%s thread=%d arg=%lu offline_at_call=%d round=%llu {%s} size=%lu target=%lu works_outstanding=%ld "
+	char busy_who[32] = "";
+	int nbusy = busy_tasks(busy_who, sizeof(busy_who));
+	vp_note("stuck: busy_tasks=%d(first %s) vmas=%d call=%s thread=%d arg=%lu offline_at_call=%d round=%llu {%s} size=%lu target=%lu works_outstanding=%ld "
 		"lazy_launched=%llu worker_loop_iterations=%llu worker_tid=%d worker_state=%c worker_wchan=%s",
-		call_names[call], who, who >= 0 ? T[who].call_arg : 0UL, who >= 0 ? T[who].offline_at_call : 0,
+		nbusy, busy_who, count_vmas(), call_names[call], who, who >= 0 ? T[who].call_arg : 0UL, who >= 0 ? T[who].offline_at_call : 0,
 		(unsigned long long) g_round, g_rc.str, g_ht ? ht_size(g_ht) : 0UL, g_ht ? ht_target(g_ht) : 0UL, works,
 		(unsigned long long) launched, (unsigned long long) wloops, g_worker_tid, wstate, wchan);
+	if (nbusy) {
+		snprintf(buf, len, "lfht-life:%s:no-progress-for-stall-period-but-%d-task(s)-still-running-(%s-in-flight)", g_cfgname, nbusy,
+			 call_names[call]);
+		return 0;
+	}
 #if VP_IS_QSBR
 	/*
 	 * qsbr: an OFFLINE application thread is inside cds_lfht_resize() (it holds resize_mutex: it
@@ -856,5 +924,6 @@ int main(int argc, char **argv)
 	vp_counter_add("allocations_not_returned", tot_leaks);
 	vp_counter_add("guard_allocations", ga_n);
 	vp_counter_add("guard_fallbacks", ga_fallbacks);
+	vp_counter_add("vmas_at_end", (uint64_t) count_vmas());
 	return vp_finish();
 }
